@@ -28,6 +28,7 @@ package format
 
 //@ func detectHTMLMagic results (r)
 //@   property C20, C02
+//@   flags pure
 //@   ensures blank: (forall k int :: {data[k]} 0 <= k && k < len(data) ==> (data[k] == ' ' || data[k] == 9 || data[k] == 10 || data[k] == 13)) ==> !r
 //@   loop 0:
 //@     invariant 0 <= start && start <= len(data)
@@ -50,3 +51,15 @@ package format
 //@   loop 2:
 //@     invariant forall k int :: {zr.File[k]} 0 <= k && k < len(zr.File) ==> zr.File[k].Name != "META-INF/container.xml"
 //@     invariant forall k int :: {zr.File[k]} 0 <= k && k < $i ==> !ooxmlMarker(zr.File[k].Name)
+
+// Content sniffing of a file: PDF only when the file STARTS with %PDF; a ZIP local-file header hands over to the ZIP
+// family detection; otherwise HTML by its signature; otherwise unknown - in this order.
+//@ spec func startsPDF(m []byte) bool = len(m) >= 4 && m[0] == '%' && m[1] == 'P' && m[2] == 'D' && m[3] == 'F'
+//@ spec func startsZIP(m []byte) bool = len(m) >= 4 && m[0] == 80 && m[1] == 75 && m[2] == 3 && m[3] == 4
+//@ func DetectFromReader results (fm, err)
+//@   property C20
+//@   flags nosafety
+//@   atreturn#2 pdf_only_at_the_start: startsPDF(magic)
+//@   callsite detectZIPFormat(rr, sz) requires startsZIP(magic) && !startsPDF(magic) && sz == size
+//@   atreturn#4 html_after_pdf_and_zip: detectHTMLMagic(magic) && !startsPDF(magic) && !startsZIP(magic)
+//@   atreturn#5 unknown_when_nothing_matches: !detectHTMLMagic(magic) && !startsPDF(magic) && !startsZIP(magic)
